@@ -47,7 +47,12 @@
 (*     replaced by the file name, without the backslash) or be left as it  *)
 (*     is -- variants bs = "esc" / "keep",                                 *)
 (*   - patterns whose meaning Fnmatch leaves open (Parse(..).un # {}),     *)
-(*     and a trailing escaping backslash in a component: Unspecified.      *)
+(*     and a trailing escaping backslash in a component: such a component  *)
+(*     may be taken literally, match nothing, or be given some meaning as  *)
+(*     a pattern -- but whatever it means the property still binds: the    *)
+(*     result is the word itself, or a sorted duplicate-free list of       *)
+(*     EXISTING pathnames that match the word when the open component is   *)
+(*     read as "any directory entry" (WeakAllowed below).                  *)
 (***************************************************************************)
 EXTENDS Integers, Sequences, FiniteSets, TLC
 
@@ -84,7 +89,7 @@ SortStrings(S) ==
 (*   [k |-> "lit",   s]  unquoted text s           (no quoting characters) *)
 (*   [k |-> "bs",    s]  \c for the one character s                        *)
 (*   [k |-> "sq",    s]  's'                                               *)
-(*   [k |-> "dq",    s]  "s"          (s without $ ` \ and double quote)   *)
+(*   [k |-> "dq",    s]  "s"  ($ ` \ and " in s are written with a backslash) *)
 (*   [k |-> "var",   s]  ${v}  unquoted, where the value of v is s         *)
 (*   [k |-> "dqvar", s]  "${v}"                                            *)
 (*   [k |-> "tilde", s]  ~  where the value of HOME is s                   *)
@@ -172,11 +177,12 @@ Prep(cs, bs, NU) ==
   LET P == F!Parse(ToPat(cs, 1, bs))
       A == P.atoms
       L == \A k \in 1..Len(A) : A[k].t = "c"
+      X == P.un # {} \/ TrailingEscape(cs, 1)       \* no specified meaning
   IN [lit   |-> L,
       name  |-> IF L THEN Str([k \in 1..Len(A) |-> A[k].c]) ELSE "",
       atoms |-> A,
-      ms    |-> IF L THEN {} ELSE {nm \in NU : NameMatches(A, nm)},
-      un    |-> P.un # {} \/ TrailingEscape(cs, 1)]
+      ms    |-> IF L \/ X THEN {} ELSE {nm \in NU : NameMatches(A, nm)},
+      un    |-> X]
 
 Prepared(cs, bs, NU) == LET C == SplitSlash(cs) IN [i \in 1..Len(C) |-> Prep(C[i], bs, NU)]
 
@@ -308,6 +314,29 @@ AllowedR(cs, PP, T, cwd) == {GlobP(cs, PP[bs], T, cwd, dg) : bs \in DOMAIN PP, d
 OutsideR(PP, T, cwd, scope) ==
   \E bs \in DOMAIN PP : \E d \in Search(T, cwd, PP[bs], 1, <<>>).d : d = <<>> \/ d[1] # scope
 
+\* The weak reading of a word some of whose components have no specified
+\* meaning: such a component may stand for any directory entry (never "." or
+\* ".."); the other components keep their meaning.
+Weaken(P, NU) ==
+  [i \in 1..Len(P) |->
+     IF P[i].un THEN [lit |-> FALSE, name |-> "", atoms |-> P[i].atoms, ms |-> NU \ {".", ".."}, un |-> FALSE]
+     ELSE P[i]]
+
+\* every pathname a result for such a word may hold (lstat is enough: the
+\* lenient reading of "existing")
+WeakUniverse(PP, NU, T, cwd) ==
+  UNION {{Join(ns) : ns \in Matched(Weaken(PP[bs], NU), T, cwd, TRUE)} : bs \in DOMAIN PP}
+
+RECURSIVE StrictlySorted(_)
+StrictlySorted(out) == Len(out) < 2 \/ (StrLess(out[1], out[2]) /\ StrictlySorted(Tail(out)))
+
+WeakOK(out, cs, W) ==
+  \/ out = <<Removed(cs)>>
+  \/ Len(out) > 0 /\ StrictlySorted(out) /\ \A k \in 1..Len(out) : out[k] \in W
+
+WeakOutsideR(PP, NU, T, cwd, scope) ==
+  OutsideR([bs \in DOMAIN PP |-> Weaken(PP[bs], NU)], T, cwd, scope)
+
 (***************************************************************************)
 (* The property.  Allowed(us, T, cwd, noglob): the set of field lists that *)
 (* pathname expansion may deliver for the word `us` in tree T with working *)
@@ -321,4 +350,13 @@ Allowed(us, T, cwd, noglob) ==
 
 ScansOutside(us, T, cwd, scope) ==
   OutsideR(Readings(FieldChars(us), AllNames(T)), T, cwd, scope)
+
+\* For an Unspecified word: is `out` a result that the property tolerates,
+\* and does judging it need directories that are not modelled?
+WeakAllowed(out, us, T, cwd) ==
+  LET cs == FieldChars(us)  NU == AllNames(T)  PP == Readings(cs, NU)
+  IN WeakOK(out, cs, WeakUniverse(PP, NU, T, cwd))
+
+WeakScansOutside(us, T, cwd, scope) ==
+  LET NU == AllNames(T) IN WeakOutsideR(Readings(FieldChars(us), NU), NU, T, cwd, scope)
 =============================================================================
